@@ -66,14 +66,14 @@ Section F32.
   Qed.
 
   Theorem relu_derivative_finite (v : f32) : fin (relu_b N32 v).
-  Proof. unfold relu_b. rewrite one_is, zero_is. destruct (gtb v c_zero); [exact c_one_fin|exact c_zero_fin]. Qed.
+  Proof. unfold relu_b. rewrite one_is, zero_is. destruct (gtb _ _); [exact c_one_fin|exact c_zero_fin]. Qed.
 
   Theorem leaky_derivative_finite (v : f32) : fin (leaky_b N32 v).
-  Proof. unfold leaky_b. rewrite one_is, alpha_is, zero_is. destruct (gtb v c_zero); [exact c_one_fin|exact c_alpha_fin]. Qed.
+  Proof. unfold leaky_b. rewrite one_is, alpha_is, zero_is. destruct (gtb _ _); [exact c_one_fin|exact c_alpha_fin]. Qed.
 
   Theorem leaky_finite (v : f32) : fin v -> fin (leaky_f N32 v).
   Proof.
-    intros Hv. unfold leaky_f. rewrite alpha_is, zero_is. destruct (gtb v c_zero); [exact Hv|].
+    intros Hv. unfold leaky_f. rewrite alpha_is, zero_is. destruct (gtb _ _); [exact Hv|].
     cbn [nmul NumF32].
     pose proof (Bmult_correct prec32 emax32 prec32_gt_0 prec32_lt_emax mode_NE c_alpha v) as H.
     assert (Hb : Rabs (rnd (B2R c_alpha * B2R v)) < bpow radix2 emax32).
